@@ -10,12 +10,26 @@ CLASSES = {"OrderedMultiDict": impl.OrderedMultiDict, "PVLModule": impl.PVLModul
 _ITEMS = "_OrderedMultiDict__items"
 
 
+def _items_of(o):
+    """the item list: read straight from the instance when the (private) attribute
+    is there - that does not go through the code under test - else by iteration,
+    so that a rename of the attribute does not break the harness"""
+    try:
+        return list(getattr(o, _ITEMS))
+    except AttributeError:
+        return list(o)
+
+
 def concrete(o):
-    """(item list, dict storage in insertion order) - the whole state of the
+    """(item list, mapping storage in insertion order) - the whole state of the
     object.  Equal concrete states have equal futures."""
-    items = tuple((k, _cv(v)) for k, v in getattr(o, _ITEMS))
+    items = tuple((k, _cv(v)) for k, v in _items_of(o))
+    try:
+        raw = list(dict.items(o))
+    except TypeError:
+        raw = []
     store = tuple((k, tuple(_cv(x) for x in v) if isinstance(v, list) else ("BARE", _cv(v)))
-                  for k, v in dict.items(o))
+                  for k, v in raw)
     return (items, store)
 
 
@@ -28,20 +42,22 @@ def _cv(v):
 
 
 def invariant(o):
-    """The mapping representation is the grouping of the item list."""
+    """Diagnostic only (never an alarm by itself): with the present layout - a private
+    item list plus dict storage of value lists - the storage should be the grouping of
+    the list.  Every divergence that matters is visible through the public accessors,
+    which is what the checks compare."""
     try:
         items = getattr(o, _ITEMS)
-    except AttributeError:
-        return "item list attribute missing"
+        raw = dict(dict.items(o))
+    except (AttributeError, TypeError):
+        return None
+    if not raw and items:
+        return None               # some other storage layout
     grouped = {}
     for k, v in items:
         grouped.setdefault(k, []).append(v)
-    store = dict(dict.items(o))
-    if store != grouped:
-        return "mapping storage %r is not the grouping of the item list %r" % (store, items)
-    for k, v in store.items():
-        if not isinstance(v, list):
-            return "mapping storage holds a bare value for %r" % (k,)
+    if raw != grouped:
+        return "mapping storage %r is not the grouping of the item list %r" % (raw, items)
     return None
 
 
@@ -73,6 +89,26 @@ def _apply(o, op, keys, vals):
     if n == "extend_md":
         return o.extend(impl.OrderedMultiDict([(op[1], op[2]), (op[1], vals[-1])]))
     if n == "extend_kw": return o.extend(**{op[1]: op[2]})
+    if n == "extend_live":
+        src = type(o)([(op[1], op[2]), (op[1], vals[-1])])
+        o.extend(src)
+        o.append(op[1], vals[0])             # must not show in src ...
+        _expect_list(src, [(op[1], op[2]), (op[1], vals[-1])], keys, vals, "the source of extend()")
+        src.append(op[1], 77)                # ... and a change of src must not show in o (checked by the caller)
+        src.pop()
+        src.pop()
+        return None
+    if n == "construct_from":
+        snapshot = list(o)
+        for other in (type(o)(o), o.copy()):
+            for k in keys:
+                other.append(k, 55)
+            if len(other):
+                other.pop()
+            other.insert(0, keys[0], 56)
+            other[keys[-1]] = 57
+        _expect_list(o, snapshot, keys, vals, "the container another one was built from")
+        return None
     if n == "insert3": return o.insert(op[1], op[2], op[3])
     if n == "insert_pair": return o.insert(op[1], (op[2], op[3]))
     if n == "insert_klist": return o.insert(op[1], [op[2], op[3]])
@@ -99,6 +135,16 @@ def _apply(o, op, keys, vals):
     if n == "popitem": return o.popitem()
     if n == "clear": return o.clear()
     raise ValueError(op)
+
+
+def _expect_list(obj, want, keys, vals, what):
+    from . import listmodel
+    got = observe(obj, keys, vals)
+    exp = listmodel.observe(list(want), keys, vals)
+    bad = [k for k in exp if exp[k] != got.get(k)]
+    if bad:
+        raise AssertionError("%s changed: accessor %s gives %r, its list says %r"
+                             % (what, bad[0], got.get(bad[0]), exp[bad[0]]))
 
 
 def _try(f, *exc_names):
